@@ -51,7 +51,11 @@ RULE = ('one evaluation = one complete run of cli.ddsmt_main under one '
 def toks_of_text(text):
     r = R.read(text)
     if isinstance(r, str):
-        return 'UNREADABLE:' + r
+        # unbalanced text (e.g. an input with a stray parenthesis): its flat
+        # lexeme sequence
+        import re
+        return 'RAW: ' + ' '.join(re.findall(
+            r'[()]|"(?:[^"]|"")*"|\|[^|]*\||;[^\n]*|[^\s()";|]+', text))
     return ' '.join(R.tokens(R.norm_tree(r)))
 
 
@@ -278,13 +282,29 @@ def one_run(vec, strategy, jobs, script, mutset, fmt, oracle_kind, V, S,
         shutil.rmtree(work, ignore_errors=True)
 
 
+def _candidate_file():
+    """The file checker.check_exprs really writes the candidate to and
+    hands to the command in this process/thread."""
+    from ddsmt import checker
+    from ddsmt.nodes import Node
+    seen = []
+    real = checker.check
+    checker.check = lambda filename: seen.append(filename) or True
+    try:
+        checker.check_exprs([Node('check-sat')])
+    finally:
+        checker.check = real
+    import os
+    if not seen or not os.path.exists(seen[0]):
+        return 'no candidate file written'
+    return seen[0]
+
+
 def _child_tmpname(k):
     import threading
-    from ddsmt import tmpfiles
-    names = [tmpfiles.get_tmp_filename()]
+    names = [_candidate_file()]
     box = []
-    t = threading.Thread(target=lambda: box.append(
-        tmpfiles.get_tmp_filename()))
+    t = threading.Thread(target=lambda: box.append(_candidate_file()))
     t.start()
     t.join()
     import os
@@ -302,7 +322,10 @@ def run_tmpnames():
     SC._namespace('ddmin', 2, 'core', 'out.smt2')
     options.args().infile = 'in.smt2'
     tmpfiles.init()
-    main_name = tmpfiles.get_tmp_filename()
+    main_name = _candidate_file()     # a sequential check before the fork
+    if main_name != tmpfiles.get_tmp_filename():
+        main_name = (f'check_exprs wrote {main_name}, get_tmp_filename() is '
+                     f'{tmpfiles.get_tmp_filename()}')
     ctx = multiprocessing.get_context('fork')
     with ctx.Pool(3) as pool:
         res = pool.map(_child_tmpname, range(6), chunksize=1)
@@ -356,6 +379,9 @@ CONFIGS = [
     ('ddmin', 2, 'c', 'erase', 'pretty', 'hash0', 'ccmo'),
     ('hierarchical', 2, 'b', 'mix', 'default', 'hash0', 'ccig'),
     ('ddmin', 1, 'a', 'core', 'default', 'first', 'ccio'),
+    # an input with a stray ')': its re-rendering is not the input
+    ('hierarchical', 1, 'p', 'core', 'default', 'first', 'plain'),
+    ('ddmin', 1, 'p', 'erase', 'default', 'hash0', 'plain'),
 ]
 
 
